@@ -1,4 +1,5 @@
 import Esp.Model.Conn
+import Esp.Model.Session
 import Driver.Util
 /-! driver ops for the connection LTS (C05–C09, C19) -/
 open Esp Drv Esp.Conn
@@ -78,6 +79,17 @@ def cnStep (s : State) (ws : List String) : State × String :=
         | some (.api e) => s!"err:{showErr e}"
         | some _ => "err:unhandled")
     | none => (s, "bad-op")
+  | ["cn.session", noise, announced, expected, login, major, name, invalid] =>
+    -- announced / expected: `-` = none, else hex (`e` = the empty string); name: hex (`e` = empty)
+    let opt (w : String) : Option (Option (List Nat)) :=
+      if w == "-" then some none else if w == "e" then some (some []) else (hexToBytes w).map (fun b => some (b.map (·.toNat)))
+    let nm : Option (List Nat) := if name == "e" then some [] else (hexToBytes name).map (fun b => b.map (·.toNat))
+    match opt announced, opt expected, major.toNat?, nm with
+    | some a, some e, some m, some n =>
+      (s, match judgeSession (noise == "1") a e (login == "1") m n (invalid == "1") with
+        | .accept => "accept" | .badServerName => "err:badServerName"
+        | .reject (.api x) => s!"err:{showErr x}" | .reject _ => "err:unhandled")
+    | _, _, _, _ => (s, "bad-op")
   | "cn.ev" :: rest =>
     match parseEv rest with
     | some e => let s' := step s e; (s', showState s')
